@@ -113,6 +113,11 @@ def parsePattern (s : List Nat) : Option Pat :=
   | some (mt, toks) => some ⟨neg, p, mt, toks⟩
   | none => some ⟨neg, p, .exact, []⟩
 
+/-- patternmatcher.New rejects the whole list when a pattern is, after trimming and cleaning, a lone `!` -/
+def illegalBang (s : List Nat) : Bool :=
+  let p := trimSpace s
+  !p.isEmpty && clean p == [33]
+
 def parsePatterns (ss : List (List Nat)) : List Pat := ss.filterMap parsePattern
 
 def clsMatch (neg : Bool) (rs : List (Nat × Nat)) (c : Nat) : Bool :=
